@@ -2,6 +2,7 @@ package dsig
 
 import (
 	"encoding/json"
+	"errors"
 	"fmt"
 
 	"github.com/go-jose/go-jose/v4"
@@ -212,7 +213,7 @@ func (s *Signature) UnmarshalJSON(data []byte) error {
 		return fmt.Errorf("dsig: %w", err)
 	}
 	if len(str) == 0 {
-		return nil
+		return errors.New("dsig: empty signature")
 	}
 	return s.parse(str)
 }
